@@ -237,6 +237,7 @@ def run(tier, v):
         "middleware_cases": sum(1 for c in gen if "mw" in c["c"]), "side_channel_cases": sum(1 for c in gen if "side" in c["c"]),
         "conn_runs_connect_gun": sum(1 for r in runs if r.get("gun") == "connect"),
         "conn_runs_shared_client": sum(1 for r in runs if r.get("shared")),
+        "conn_runs_http2_gun": sum(1 for r in runs if r.get("gun") == "http2"),
         "named_target_cases": sum(1 for c in gen if c["c"].get("tname")),
         "http2_gun_cases": sum(1 for c in gen if c["c"].get("gun") == "http2"),
         "http2_gun_cases_target_without_h2": sum(1 for c in gen if c["c"].get("gun") == "http2" and not c["c"].get("h2")),
